@@ -837,3 +837,19 @@ FIXED.append(
         "start": "R",
     }
 )
+
+
+FIXED.append(
+    {  # unions offering a COMPOSITE member (a refined list, a plain list, a tuple) next to a single node: the deciders ask
+        # the grammar for the minimum depth of such members while a program is being created
+        "name": "fx_union_composite",
+        "abstracts": [{"name": "Stmt", "parent": None, "style": "abc"}],
+        "prods": [
+            {"name": "Skip", "parent": "Stmt", "fields": []},
+            {"name": "Block", "parent": "Stmt", "fields": [["body", ["union", ["ann", ["list", ["ref", "Stmt"]], ["ListSizeBetween", 1, 2]], ["ref", "Stmt"]]]]},
+            {"name": "Both", "parent": "Stmt", "fields": [["p", ["union", ["tuple", ["ref", "Skip"], ["ref", "Stmt"]], ["ref", "Skip"]]]]},
+            {"name": "Many", "parent": "Stmt", "fields": [["xs", ["union", ["list", ["ref", "Skip"]], ["ref", "Skip"]]], ["k", ["bool"]]]},
+        ],
+        "start": "Stmt",
+    }
+)
